@@ -44,7 +44,7 @@ def stage_pool(D, ctx):
     return E
 
 
-def build_flow(ctx, gen, rng, D, ctx_kind):
+def build_flow(ctx, gen, rng, D, ctx_kind, fixed=None):
     from nflows.flows.base import Flow
     from nflows.distributions.normal import StandardNormal, DiagonalNormal, ConditionalDiagonalNormal
     import nflows.transforms as T
@@ -52,6 +52,10 @@ def build_flow(ctx, gen, rng, D, ctx_kind):
     pool = stage_pool(D, cfeat)
     nst = rng.randint(1, 3)
     stages = []
+    if fixed is not None:
+        # deterministic coverage: a single-stage flow for every entry of the pool
+        stages.append((fixed, tcorr.build(fixed, gen, torch.float64, 'normal'), False))
+        nst = 0
     for _ in range(nst):
         e = rng.choice(pool)
         t = tcorr.build(e, gen, torch.float64, rng.choice(['fresh', 'normal']))
@@ -84,11 +88,21 @@ def correspondence(ctx):
     rng = ctx.rng
     nflows_ = 60 if ctx.quick() else 500
     allreq, plans = [], []
-    for k in range(nflows_):
-        D = rng.choice([1, 2, 2, 3])
-        ctx_kind = rng.choice(['none', 'rows', 'emb'])
+    todo = []
+    for D in (1, 2, 3):
+        for ck, cf in (('none', None), ('rows', 2)):
+            for e in stage_pool(D, cf):
+                if (ck == 'rows') == (e.ctx is not None) or (ck == 'none' and e.ctx is None):
+                    if ctx.quick() and D == 3 and e.kind in ('coupling', 'ar'):
+                        continue
+                    todo.append((D, ck, e))
+    todo += [(None, None, None)] * nflows_
+    for (D, ctx_kind, fixed) in todo:
+        if fixed is None:
+            D = rng.choice([1, 2, 2, 3])
+            ctx_kind = rng.choice(['none', 'rows', 'emb'])
         try:
-            flow, stages, mods, base, bk, emb, rawc = build_flow(ctx, gen, rng, D, ctx_kind)
+            flow, stages, mods, base, bk, emb, rawc = build_flow(ctx, gen, rng, D, ctx_kind, fixed)
         except IndexError:
             continue
         B = 4
@@ -184,6 +198,17 @@ def search(ctx):
     import random
     gen = torch.Generator().manual_seed(ctx.seed + 303)
     rng = random.Random(ctx.seed + 303)
+    for e in stage_pool(1, None):
+        try:
+            flow, stages, mods, base, bk, emb, rawc = build_flow(ctx, gen, rng, 1, 'none', e)
+            I, converged = _quad_1d(flow, None)
+        except Exception as ex:
+            continue
+        if converged and not abs(I - 1.0) <= 5e-4:
+            ctx.fail('exp(log_prob) integrates to %.6f, not 1' % I, {'program': [e.name], 'base': bk, 'context': None, 'D': 1},
+                     match={'symptom': 'integral!=1', 'classes': [e.name.split('/')[0]]})
+        if len(ctx.failing) >= 4 or ctx.elapsed() > 600:
+            return
     tried = 0
     while tried < (25 if ctx.quick() else 150) and ctx.elapsed() < 900 and len(ctx.failing) < 4:
         D = 1   # quadrature accurate enough to decide the property is only attempted on the line
